@@ -17,6 +17,7 @@ Does not decide: chrono's parsing of each absolute form, local-zone lookup, the 
 import decide
 import flow
 import rx
+import re
 from mir import CheckerError, op_local
 
 
@@ -849,6 +850,75 @@ def run(prog, rep, tier):
         if cap < zmax:
             rep.violation(R1413, pdb.path + "|zone-name-scan|bound-too-short", "process_dt (line %d) stops collecting the trailing zone name after %d letters but MAP_TZZ_TO_TZz has names of %d letters; "
                           "`-a '20000102T030405 CHADT'` is rejected as unparseable although CHADT is an unambiguous documented zone (and --tz-offset CHADT is accepted)" % (ln_, cap, zmax))
+
+    # ------------------------------------------------------------ R14.14 the program-start instant is fixed before the program waits for input
+    # Relative bounds ('-a -5m') are resolved against UTC_NOW, a lazily initialised thread-local: its
+    # value is the time of the *first access*.  Paths may come from standard input ('-'), which can take
+    # arbitrarily long; "from program start" therefore needs a first access before the first read of
+    # stdin.  Today that access happens inside CLI_Args::parse(): the default of --tz-offset is
+    # LOCAL_NOW_OFFSET, whose initialiser reads LOCAL_NOW, whose initialiser reads UTC_NOW.  The chain is
+    # followed through the thread-local initialisers (LocalKey::<T>::with -> the initialiser returning T)
+    # and through clap's derive (Parser::parse -> the generated augment_args/DEFAULT_VALUE bodies).
+    R1414 = rep.rule("R14.14", "the start instant (UTC_NOW) is captured before the first read of standard input")
+    inits14 = {}
+    for p_ in prog.facts.bodies:
+        if p_.startswith("s4::") and p_.endswith("::__rust_std_internal_init_fn"):
+            inits14.setdefault(prog.body(p_).local_ty(0), []).append(p_)
+    now_fns = [p_ for ps_ in inits14.values() for p_ in ps_ if any(c.d.endswith("Utc::now") for c in prog.body(p_).live_calls())]
+    if len(now_fns) != 1:
+        raise CheckerError("R14.14: %d thread-local initialisers call Utc::now (expected exactly UTC_NOW)" % len(now_fns))
+    cg14 = prog.callgraph()
+    memo14 = {}
+
+    def _captures(fn_, depth_=0):
+        if fn_ in memo14:
+            return memo14[fn_]
+        memo14[fn_] = False
+        if fn_ == now_fns[0]:
+            memo14[fn_] = True
+            return True
+        fb_ = prog.body(fn_, required=False)
+        if fb_ is None or depth_ > 12:
+            return False
+        res_ = False
+        for c in fb_.live_calls():
+            if _call_captures(c, depth_):
+                res_ = True
+                break
+        if not res_:
+            for cl_ in prog.closures_in(fn_):
+                if cl_.path != fn_ and _captures(cl_.path, depth_ + 1):
+                    res_ = True
+                    break
+        memo14[fn_] = res_
+        return res_
+
+    def _call_captures(c, depth_=0):
+        if "thread::LocalKey" in c.d and c.d.split("::")[-1] in ("with", "try_with"):
+            ty_ = (c.callee.get("ga") or [""])[0]
+            return any(_captures(i_, depth_ + 1) for i_ in inits14.get(ty_, []))
+        if c.d.endswith("clap::Parser>::parse") or c.f.endswith("clap::Parser>::parse"):
+            m_ = re.match(r"<(.+) as clap::Parser>::parse", c.f)
+            pre_ = "<%s as clap::" % (m_.group(1) if m_ else "?")
+            return any(_captures(p_, depth_ + 1) for p_ in prog.facts.bodies if p_.startswith(pre_))
+        if c.d.startswith("s4::") or c.d.startswith("s4lib::"):
+            return _captures(c.d, depth_ + 1)
+        return False
+    n1414 = 0
+    for fn_ in ("s4::main", "s4::cli_process_args"):
+        fb_ = prog.body(fn_)
+        caps_ = [c for c in fb_.live_calls() if _call_captures(c)]
+        for c in fb_.live_calls():
+            if not (c.d in ("std::io::stdin", "std::io::Stdin::lock", "std::io::Stdin::lines", "std::io::Stdin::read_line") or ("Stdin" in c.f and c.d.split("::")[-1] in ("lines", "read_line", "next", "read_to_string", "read"))):
+                continue
+            n1414 += 1
+            dom_ = [k_ for k_ in caps_ if k_.bb != c.bb and fb_.dominates(k_.bb, c.bb)]
+            rep.examined(R1414, "%s|%s@%d" % (fn_, c.d.split("::")[-1], n1414), sample={"function": fn_, "line": c.line, "stdin_call": c.d.split("::")[-1], "start_clock_captured_before_by_line": [k_.line for k_ in dom_][:2]})
+            if not dom_:
+                rep.violation(R1414, "%s|stdin-before-start-clock" % fn_, "%s (line %d) reads standard input before anything has touched UTC_NOW (whose value is the time of its first access); paths piped in slowly ('-') then move the base of every relative "
+                              "-a/-b value from the program start to the moment the list ended" % (fn_, c.line))
+    if n1414 < 1:
+        raise CheckerError("R14.14: no read of standard input found in main / cli_process_args")
 
     return rep.finish(
         "Static necessary-condition check of the CLI datetime-filter path: the relative-offset grammar is anchored (regular-language analysis of "
